@@ -104,7 +104,7 @@ def build_model(case):
         base = MB(case["psi"], case["Tn0"])
     elif k == "template":
         return MT(case["alN"], case["psiN"], case["cb2"], case["cs2"], case["Tn"],
-                  case["Tn"])
+                  case["Tn"], case.get("wn", 1))
     elif k == "traced":
         return traced_thermo(case)
     else:
@@ -154,9 +154,9 @@ def gen_case(rng, kind=None):
                 Tn=unit * round(rng.uniform(0.5, 2.0), 3))
 
 
-def make_hydro(th, rtol=RTOL, atol=ATOL):
+def make_hydro(th, rtol=RTOL, atol=ATOL, tmax=TMAX, tmin=TMIN):
     import WallGo
-    return WallGo.Hydrodynamics(th, TMAX, TMIN, rtol, atol)
+    return WallGo.Hydrodynamics(th, tmax, tmin, rtol, atol)
 
 
 # ------------------------------------------------------------------------------------
@@ -333,14 +333,16 @@ def check_template_class(ctx, case, th, h, vw):
 
 
 def wall_velocities(rng, h, n):
-    """vw from vMin to 0.99 on all three branches, denser near vMin, cs(-), vJ"""
+    """vw from vMin to 0.99 on all three branches, denser near vMin, cs(-), vJ, including
+    the exact values vMin and vJ that the wall solver itself evaluates"""
     vmin = max(h.vMin, 1e-3)
     vJ = h.vJ
     cb = math.sqrt(max(float(h.thermodynamics.csqLowT(h.Tnucl)), 1e-6))
     pts = [vmin * 1.0001 + 1e-6, vmin + (min(cb, vJ) - vmin) * rng.uniform(0.01, 0.2),
            cb * (1 - 10 ** rng.uniform(-4, -2)), cb * (1 + 10 ** rng.uniform(-4, -2)),
            vJ - 10 ** rng.uniform(-5, -2), vJ + 10 ** rng.uniform(-5, -2), 0.99,
-           rng.uniform(vJ, 0.99), rng.uniform(0.9, 0.99)]
+           rng.uniform(vJ, 0.99), rng.uniform(0.9, 0.99), vJ, vmin,
+           max(vmin, 10 ** rng.uniform(-2.7, -1.3))]        # slow walls (v+ <= 1e-2)
     while len(pts) < n:
         pts.append(rng.uniform(vmin, 0.99))
     out = [v for v in pts if vmin <= v <= 0.99]
@@ -348,35 +350,179 @@ def wall_velocities(rng, h, n):
     return out[:n]
 
 
+EPS = 2.220446049250313e-16
+
+
+def same(a, b, ulps=4):
+    return abs(a - b) <= ulps * EPS * max(abs(a), abs(b))
+
+
+def expected_guess(h, vw, vp):
+    """the initial guess [Tp, Tm] that matchDeflagOrHyb (hydrodynamics.py:414-452, not
+    translated) builds for the 2x2 solve, recomputed from the template object: part of the
+    MECHANISM of the recorded unconverged-* findings (hybr started from exactly this guess)"""
+    from WallGo.exceptions import WallGoError
+    t, Tn, th = h.template, h.Tnucl, h.thermodynamics
+
+    def plain():
+        return [min(1.1, 1 / np.sqrt(1 - min(vw ** 2, t.cb2))) * Tn, Tn]
+    try:
+        if vw > t.vMin:
+            vwT = min(vw, t.vJ - 1e-6)
+            vpT = vp if vp is None else min(vp, vwT)
+            g = list(t.matchDeflagOrHybInitial(vwT, vpT))
+        else:
+            g = [Tn, 0.99 * Tn]
+    except WallGoError:
+        g = plain()
+    if np.any(np.isnan(g)):
+        g = plain()
+    if vp is not None and g[0] <= g[1]:
+        g[0] = 1.01 * g[1]
+    if vp is None:
+        lim = g[1] / np.sqrt(1 - min(vw ** 2, float(th.csqLowT(g[1]))))
+        if g[0] <= g[1] or g[0] > lim:
+            g[0] = g[1] * (1 + 1 / np.sqrt(1 - min(vw ** 2, float(th.csqLowT(g[1]))))) / 2
+    return [float(g[0]), float(g[1])]
+
+
+def solve_info(h, spy, vw):
+    """what the LAST 2x2 solve made inside the spied call did (never a stale h.success):
+    None when no such solve happened (detonations, pure fallback)"""
+    fun, sol = spy.last("root", "matching")
+    if fun is None:
+        return None
+    vp = cell(fun, "vp")
+    Tpm0 = [float(x) for x in cell(fun, "Tpm0")]
+    ssq = float(np.sum(np.asarray(sol.fun, dtype=float) ** 2))
+    try:
+        g = expected_guess(h, vw, None if vp is None else float(vp))
+        guess_ok = all(abs(a - b) <= 1e-10 * abs(b) for a, b in zip(Tpm0, g))
+    except Exception:
+        guess_ok = False
+    return dict(fun=fun, sol=sol, vp=vp, Tpm0=Tpm0, hybr_ok=bool(sol.success),
+                accepted=bool(sol.success) or ssq < 1e-6, ssq=ssq, guess_ok=guess_ok,
+                status=int(sol.status))
+
+
+def solve_state(info):
+    """'ok' | 'accepted' (hybr failed, sum(fun^2)<1e-6 let it through) | 'unconverged' (hybr
+    failed, not accepted, returned anyway) -- each only with the recorded mechanism (hybr
+    started from the code's own template-based guess); otherwise 'foreign' (NOT a known
+    class: something else made the solve fail)"""
+    if info is None or info["hybr_ok"]:
+        return "ok"
+    if not info["guess_ok"]:
+        return "foreign"
+    return "accepted" if info["accepted"] else "unconverged"
+
+
+def eos_at(th, Tp, Tm):
+    return (float(th.eHighT(Tp)), float(th.eLowT(Tm)), float(th.pHighT(Tp)),
+            float(th.pLowT(Tm)))
+
+
+def derived_flux_bound(th, vp, vm, Tp, Tm, r1, r2):
+    """absolute bound on both flux mismatches implied by the code's OWN residuals r1 = A B -
+    vp^2, r2 = A/B - vm^2 at the returned point: C02_residual_to_junction gives the polynomial
+    junction residuals res1, res2 exactly, C02_near_root_flux_bound the factor 4 g+^2 g-^2.
+    Returns (bound, rounding floor) or None outside the theorems' hypotheses."""
+    eH, eL, pH, pL = eos_at(th, Tp, Tm)
+    if not (eH != eL and eH + pL > 0 and eL + pH > 0 and 0 < vp < 1 and 0 < vm < 1):
+        return None
+    A, B = (pH - pL) / (eH - eL), (eL + pH) / (eH + pL)
+    if not (vp * vm + A > 0 and vm * vm + r2 > 0):
+        return None
+    d1 = abs(eH - eL) * abs(vp * vp * r2 + vm * vm * r1 + r1 * r2) / (vp * vm + A)
+    d2 = (eH + pL) * abs(vp * vp * r2 - vm * vm * r1) / ((vm * vm + r2) * (vp + vm * B))
+    g4 = 1 / ((1 - vp * vp) * (1 - vm * vm))
+    floor = 256 * EPS * (abs(pH) + abs(pL) + abs(eH) + abs(eL)) * g4
+    return 4 * max(d1, d2) * g4, floor
+
+
+def scale_of(Tpm0, Tp, Tm):
+    return (4 + (Tp / Tpm0[0]) ** 2 + (Tm / Tpm0[1]) ** 2) * (
+        4 + (Tpm0[0] / Tp) ** 2 + (Tpm0[1] / Tm) ** 2)
+
+
+def refine_zero(info):
+    """an exact zero of the captured residual closure near the returned point"""
+    from scipy.optimize import root as sroot
+    try:
+        s2 = sroot(info["fun"], info["sol"].x, method="hybr", options={"xtol": 1e-14})
+        if s2.success and float(np.sum(s2.fun ** 2)) < 1e-22:
+            return s2.x
+    except Exception:
+        pass
+    return None
+
+
+def deton_exact_exists(th, h, vw):
+    """sign change of the detonation junction residual (harness's own formula) over
+    [Tn, TMaxHydro]"""
+    Tn = h.Tnucl
+
+    def g(tm):
+        eH, eL, pH, pL = eos_at(th, Tn, tm)
+        return vw * vw * (eH - eL) - (pH - pL) * (eL + pH) / (eH + pL)
+    prev = None
+    for k in range(400):
+        tm = Tn * (h.TMaxHydro / Tn) ** (k / 399.0)
+        try:
+            v = g(tm)
+        except Exception:
+            continue
+        if not math.isfinite(v):
+            continue
+        if prev is not None and prev[1] * v < 0:
+            return True, (prev[0], tm)
+        prev = (tm, v)
+    return False, None
+
+
 GENERIC_KEY = {"energy-flux": "flux-mismatch", "momentum-flux": "flux-mismatch",
                "fallback": "template-fallback-exact-exists"}
+# failure kinds that are CONSEQUENCES of a 2x2 solve that did not converge; only these may
+# be attributed to the recorded unconverged-* findings
+CONSEQUENCE = {"inaccurate", "not-converged", "energy-flux", "momentum-flux", "c1-rear",
+               "c2-rear", "range", "residual-not-small"}
 
 
-def failure_key(h, vw, kind, fallback, success=True, hybr_ok=True):
-    """key of a failure class for known_findings.json. Two recorded findings live in the
-    corner vMin == vBracketLow (=1e-3), vw < 1.5 vBracketLow:
-      slow-wall-unconverged-accepted  hybr stalls (status 5) and the absolute acceptance rule
-                                      sum(fun^2) < 1e-6 lets a ~4% flux mismatch through;
-      slow-wall-template-fallback     the v+ bracket starts at vBracketLow, the true v+ is
-                                      below it, the template approximation is returned.
-    The same symptom anywhere else gets the generic key and is a new violation."""
+def failure_key(h, vw, kind, fallback, state, slow_fallback_mech=False):
+    """key of a failure for known_findings.json.  A recorded class is assigned only when its
+    MECHANISM is observed on this input (see solve_state): the last 2x2 hybr solve of this
+    very call failed although it was started from the code's own template-based guess, and
+      accepted by sum(fun^2)<1e-6, vMin == vBracketLow, vw < 1.5 vBracketLow
+                                          -> slow-wall-unconverged-accepted
+      accepted, elsewhere                 -> unconverged-accepted-absolute-threshold
+      not accepted (self.success False)   -> unconverged-matching-returned
+    slow-wall-template-fallback needs: same corner, the template fallback was taken, and an
+    exact matching with v+ below vBracketLow exists (the bracket floor is the cause).
+    The same symptom with any other cause keeps its generic key and is a new violation."""
     corner = h.vMin == h.vBracketLow and vw < 1.5 * h.vBracketLow
-    if corner and fallback and kind in ("energy-flux", "momentum-flux", "fallback", "c1",
-                                        "c2", "range"):
-        return "slow-wall-template-fallback"
-    if corner and not fallback and kind in ("energy-flux", "momentum-flux", "c1", "c2",
-                                            "not-converged"):
-        return "slow-wall-unconverged-accepted"
-    if success and not hybr_ok and not fallback and kind in ("energy-flux", "momentum-flux",
-                                                             "c1", "c2"):
-        # same mechanism as slow-wall-unconverged-accepted, but outside that corner: hybr
-        # reports failure, sum(fun^2) < 1e-6 (absolute) lets the result through
-        return "unconverged-accepted-absolute-threshold"
-    if not success and not fallback and kind in ("energy-flux", "momentum-flux", "c1", "c2",
-                                                  "not-converged", "range"):
-        # findMatching never looks at self.success: the result of a 2x2 solve that did not
-        # converge is returned as a matching
-        return "unconverged-matching-returned"
+    if fallback:
+        if h.vJ * (1 - 1e-8) <= vw <= h.vJ and kind in ("energy-flux", "momentum-flux",
+                                                        "c1-rear", "c2-rear", "fallback"):
+            # at vw == vJ (to 1e-8) the hybrid branch finds no bracket and hands over to the
+            # template model
+            return "template-fallback-at-vJ"
+        if corner and slow_fallback_mech and kind in ("energy-flux", "momentum-flux",
+                                                      "fallback", "c1-rear", "c2-rear",
+                                                      "range"):
+            return "slow-wall-template-fallback"
+        return GENERIC_KEY.get(kind, kind)
+    if kind == "residual-not-small" and state == "ok" and corner:
+        # hybr reports success (its step criterion is met) at a point where the residual
+        # is not small against vp^2 ~ 1e-6: third member of the slow-wall family
+        return "slow-wall-residual-not-small"
+    if kind in CONSEQUENCE:
+        if state == "accepted":
+            return "slow-wall-unconverged-accepted" if corner else \
+                "unconverged-accepted-absolute-threshold"
+        if state == "unconverged":
+            return "unconverged-matching-returned"
+        if state == "foreign":
+            return "unconverged-solve-foreign-cause"
     return GENERIC_KEY.get(kind, kind)
 
 
@@ -391,153 +537,349 @@ RECORDED = [   # inputs of the recorded findings, replayed first on every run
     # unconverged 2x2 solve returned as a matching (hybrid 0.03% below vJ)
     (dict(kind="template", alN=0.19354, psiN=0.571, cb2=0.202, cs2=0.3301, Tn=138.8),
      0.6952983303589946),
+    # template fallback at exactly vw = vJ on a traced (non-template) equation of state
+    (dict(kind="traced", D=0.2, E=0.05, lam=0.1, T0=80.0, Tn=83.011), "vJ"),
+    # hybr "success" with a residual as large as vm^2 (slow wall, traced potential)
+    (dict(kind="traced", D=0.2, E=0.05, lam=0.08, T0=80.0, Tn=84.108), 0.0010011),
 ]
+
+K_ACC = 200.0     # returned (Tp, Tm) within K_ACC * xtol * Tn (+1e-9 rel.) of an exact zero of
+#                   the captured residual: hybr's xtol (= self.atol) bounds the relative step in
+#                   the mapped variables, dT <= (TMax-TMin)/(2 pi) * xtol ~ 1.6 Tn xtol
 
 
 def check_point(ctx, case, th, h, vw, stats=None):
-    """evaluate the property at one wall velocity; returns a record (for calibration)"""
+    """evaluate the property at one wall velocity; every clause is judged (several failures
+    of one input are all reported, each with its own key)"""
     rec = dict(vw=vw)
     label = dict(case=case, vw=vw, rtol=h.rtol, atol=h.atol)
     branch = "detonation" if vw > h.vJ else (
         "hybrid" if vw * vw > float(th.csqLowT(h.Tnucl)) else "deflagration")
     rec["branch"] = branch
+    ctx.count("point", bucket=branch)
+    bads = []
+
+    def report(state="ok", slow_mech=False, fallback=0, **extra):
+        for what, kind in bads:
+            key = failure_key(h, vw, kind, fallback, state, slow_mech)
+            d = dict(label)
+            d.update(what_fails=what, kind=kind, solve_state=state, **extra)
+            ctx.fail_input("%s [%s vw=%.6g %s]" % (what, case["kind"], vw, branch), d,
+                           key=key)
+            rec.setdefault("bad", []).append(key)
+        return rec
+
     with Spy(h) as spy:
         try:
             hb = h.findHydroBoundaries(vw)
-        except Exception as ex:          # WallGoError etc: no solution returned
-            ctx.count("raised", bucket=type(ex).__name__)
-            rec["raised"] = repr(ex)
-            # a raise is not a conservation failure, but an exact matching may exist
-            return rec
-        success = h.success
+            raised = None
+        except Exception as ex:
+            raised = ex
+    info = None if branch == "detonation" else solve_info(h, spy, vw)
+    state = solve_state(info)
+    if raised is not None or (spy.matchings and spy.matchings[-1][0] is None):
+        # no solution returned: judged -- is there an exact matching for this velocity?
+        ctx.count("raised" if raised is not None else "no_solution",
+                  bucket=branch + ":" + type(raised).__name__)
+        rec["raised"] = repr(raised)
+        if branch == "detonation":
+            exists, where = deton_exact_exists(th, h, vw)
+        else:
+            exists, where = exact_matching_exists(h, vw)
+        if exists:
+            bads.append(("no matching returned (%r) although an exact one exists (sign "
+                         "change in %r)" % (raised, where), "no-result-although-exists"))
+        return report(state)
     if not spy.matchings:
-        return rec
-    vp, vm, Tp, Tm = (None if x is None else float(x) for x in spy.matchings[-1])
+        if any(float(x) != 0 for x in hb):
+            bads.append(("findHydroBoundaries returned %r without calling "
+                         "self.findMatching" % (tuple(float(x) for x in hb),),
+                         "boundaries-not-from-findMatching"))
+        else:
+            bads.append(("findHydroBoundaries returned zeros for vw=%.9g >= vMin=%.9g"
+                         % (vw, h.vMin), "zeros-inside-range"))
+        return report(state)
+    vp, vm, Tp, Tm = (float(x) for x in spy.matchings[-1])
     ctx.count("matching", dict(case=case, vw=vw), bucket=case["kind"] + "/" + branch)
-    if vp is None:
-        ctx.count("no_solution", bucket=branch)
-        rec["none"] = True
-        return rec
-    rec.update(vp=vp, vm=vm, Tp=Tp, Tm=Tm, fallback=spy.fallback, success=success)
-    if 0 <= vp <= 10 * h.atol and branch != "detonation":
-        # edge of existence (vw -> shock-limited vMin): v+ -> 0 and T- ~ v+^(1/nu) is
-        # infinitely sensitive; a v+ below the absolute tolerance carries no information
+    rec.update(vp=vp, vm=vm, Tp=Tp, Tm=Tm, fallback=spy.fallback, state=state)
+    label.update(returned=[vp, vm, Tp, Tm], fallback=spy.fallback,
+                 success=bool(h.success))
+    if info is not None:
+        label.update(hybr_status=info["status"], sum_fun_sq=info["ssq"],
+                     guess_is_the_codes=info["guess_ok"])
+    if not all(math.isfinite(x) for x in (vp, vm, Tp, Tm)) or not (
+            0 < vp < 1 and 0 < vm < 1 and Tp > 0 and Tm > 0):
+        if 0 <= vp <= 10 * h.atol and branch != "detonation":
+            # edge of existence (vw -> shock-limited vMin): v+ -> 0 and T- ~ v+^(1/nu) is
+            # infinitely sensitive; a v+ below the absolute tolerance carries no information
+            ctx.count("degenerate_edge_skipped")
+            return rec
+        bads.append(("returned values out of range: %r" % ((vp, vm, Tp, Tm),), "range"))
+        return report(state, fallback=spy.fallback,
+                      slow_mech=bool(spy.fallback) and h.vMin == h.vBracketLow)
+    if 0 < vp <= 10 * h.atol and branch != "detonation":
         ctx.count("degenerate_edge_skipped")
         return rec
-    label.update(returned=[vp, vm, Tp, Tm])
-    if h.vMin > h.vBracketLow and vw < 1.02 * h.vMin and Tm > 0 and not (
+    if h.vMin > h.vBracketLow and vw < 1.02 * h.vMin and not (
             float(th.csqLowT(Tm)) > 0 and float(th.wLowT(Tm)) > 0):
         # at a shock-limited vMin the exact solution has T- -> TMinHydro; if the equation of
         # state is not physical there (w <= 0 or cs^2 <= 0) the point is outside the
         # quantifier ("positive sound speeds")
         ctx.count("edge_outside_eos_domain_skipped")
         return rec
-    bad = None
-    if not (0 < vp < 1 and 0 < vm < 1 and Tp > 0 and Tm > 0):
-        bad = ("returned values out of range", "range")
     e1, e2, m1, m2 = fluxes(th, vp, vm, Tp, Tm)
-    tol = flux_tolerance(h, min(vp, 0.999999), min(vm, 0.999999), abs(Tp) + 1e-300,
-                         abs(Tm) + 1e-300)
-    re_ = abs(e1 - e2) / max(abs(e1), abs(e2))
-    rm_ = abs(m1 - m2) / max(abs(m1), abs(m2))
-    rec.update(mis=max(re_, rm_), tol=tol)
+    sc1, sc2 = max(abs(e1), abs(e2)), max(abs(m1), abs(m2))
+    re_, rm_ = abs(e1 - e2) / sc1, abs(m1 - m2) / sc2
+    tolc = flux_tolerance(h, vp, vm, Tp, Tm)          # calibrated: accuracy of a fallback
+    rec.update(mis=max(re_, rm_), tol=tolc)
     if stats is not None:
         stats.append(rec)
-    if not bad and not (re_ <= tol):
-        bad = ("energy flux differs across the wall: %.12g vs %.12g (rel %.3g > tol %.3g)"
-               % (e1, e2, re_, tol), "energy-flux")
-    if not bad and not (rm_ <= tol):
-        bad = ("momentum flux differs across the wall: %.12g vs %.12g (rel %.3g > tol "
-               "%.3g)" % (m1, m2, rm_, tol), "momentum-flux")
-    # boundary constants
-    c1, c2, Tpb, Tmb, vmid = (float(x) for x in hb)
-    ctx.count("boundaries")
-    sc1, sc2 = max(abs(e1), abs(e2)), max(abs(m1), abs(m2))
-    if not bad:
-        if abs(c1 + e1) > 1e-12 * sc1 or abs(c1 + e2) > 2 * tol * sc1:
-            bad = ("c1 = %.12g is not minus the energy flux (%.12g in front, %.12g behind)"
-                   % (c1, e1, e2), "c1")
-        elif abs(c2 - m1) > 1e-12 * sc2 or abs(c2 - m2) > 2 * tol * sc2:
-            bad = ("c2 = %.12g is not the momentum flux (%.12g in front, %.12g behind)"
-                   % (c2, m1, m2), "c2")
-        elif Tpb != Tp or Tmb != Tm or abs(vmid + 0.5 * (vp + vm)) > 1e-15:
-            bad = ("findHydroBoundaries does not pass on the matching: %r vs %r" % (
-                (Tpb, Tmb, vmid), (Tp, Tm, -0.5 * (vp + vm))), "boundary-pass")
-    # branch specific conclusions of the theorems
-    if not bad and not spy.fallback:
-        if branch == "detonation":
-            if vp != vw or Tp != h.Tnucl:
-                bad = ("detonation does not return vp=vw, Tp=Tn", "deton-form")
-        else:
-            vmsq = min(vw * vw, float(th.csqLowT(Tm)))
-            if abs(vm * vm - vmsq) > 1e-12:
-                bad = ("vm^2 = %.15g but min(vw^2, cs^2(Tm)) = %.15g" % (vm * vm, vmsq),
-                       "vm-rule")
-    # hypotheses of the theorems (A): root found, admissible signs, positive sound speed
+    label.update(fluxes=[e1, e2, m1, m2])
+    # ---- (1) fluxes vs the code's own residual at the returned point (derived bound) -----
+    bound = None
     if not spy.fallback:
-        ctx.count("hypotheses")
-        if not admissible(th, Tp, Tm) or not float(th.csqLowT(Tm)) > 0:
-            ctx.count("hypothesis_not_met", bucket="admissible")
-            rec["inadmissible"] = True
+        r = None
         if branch == "detonation":
-            fun, r = spy.last("root_scalar", "tmFromvpsq")
+            fun, rr = spy.last("root_scalar", "tmFromvpsq")
+            if fun is not None:
+                eH, eL, _, _ = eos_at(th, Tp, Tm)
+                f0 = float(fun(Tm))
+                rec["deton_res"] = f0
+                r = (-f0 / (eH - eL), 0.0) if eH != eL else None
+            else:
+                bads.append(("detonation matching not obtained from a bracketed root of "
+                             "tmFromvpsq", "deton-no-root-call"))
+        elif info is not None:
+            c = scale_of(info["Tpm0"], Tp, Tm)
+            f = np.asarray(info["sol"].fun, dtype=float)
+            r = (float(f[0]) / c, float(f[1]) / c)
+            if not all(same(a, b, 64) for a, b in zip(
+                    h._inverseMappingT(info["sol"].x), (Tp, Tm))):
+                bads.append(("returned (Tp, Tm) = %r is not the solver's final point %r" % (
+                    (Tp, Tm), tuple(float(x) for x in h._inverseMappingT(info["sol"].x))),
+                    "result-not-final-point"))
+                r = None
+        else:
+            bads.append(("deflagration/hybrid matching not obtained from a 2x2 solve of "
+                         "`matching`", "deflag-no-root-call"))
+        if r is not None:
+            bound = derived_flux_bound(th, vp, vm, Tp, Tm, *r)
+            if bound is None and admissible(th, Tp, Tm) and float(th.csqLowT(Tm)) > 0:
+                # the theorems' sign conditions hold, but the residual is as large as the
+                # quantities it is solved for (vm^2 + r2 <= 0 or vp vm + A <= 0)
+                bads.append(("the code's residual at the returned point, r = %r, is not "
+                             "small against vp^2 = %.3g, vm^2 = %.3g; fluxes differ by "
+                             "%.3g / %.3g" % (r, vp * vp, vm * vm, re_, rm_),
+                             "residual-not-small"))
+            elif bound is None:
+                ctx.count("hypothesis_not_met", bucket="admissible")
+                rec["inadmissible"] = True
+            else:
+                ctx.count("derived_bound")
+                b, fl = bound
+                rec["bound"] = b
+                if stats is not None and b + fl > 0:
+                    rec["mis_over_bound"] = max(abs(e1 - e2), abs(m1 - m2)) / (b + fl)
+                if abs(e1 - e2) > b * (1 + 1e-6) + fl:
+                    bads.append((
+                        "energy flux mismatch %.6g exceeds the bound %.6g implied by the "
+                        "code's own residual %r at the returned point" % (
+                            abs(e1 - e2), b, r), "flux-vs-residual"))
+                elif abs(m1 - m2) > b * (1 + 1e-6) + fl:
+                    bads.append((
+                        "momentum flux mismatch %.6g exceeds the bound %.6g implied by the "
+                        "code's own residual %r at the returned point" % (
+                            abs(m1 - m2), b, r), "flux-vs-residual"))
+    # ---- (2) accuracy: the returned point is within the solver tolerance of an exact zero --
+    if not spy.fallback:
+        if branch == "detonation":
+            fun, rr = spy.last("root_scalar", "tmFromvpsq")
             if fun is not None:
                 d = 4 * (h.atol + h.rtol * Tm)
                 lo, hi = max(Tm - d, h.Tnucl), Tm + d
                 flo, fhi, f0 = fun(lo), fun(hi), fun(Tm)
-                rec["deton_res"] = f0
+                ctx.count("accuracy", bucket="brentq")
                 if not (flo * fhi <= 0 or f0 == 0):
-                    ctx.count("hypothesis_not_met", bucket="brentq-root")
-                    if not bad:
-                        bad = ("brentq result Tm=%.12g is not within 4(atol+rtol Tm) of a "
-                               "sign change of tmFromvpsq" % Tm, "deton-root")
+                    bads.append(("brentq result Tm=%.12g is not within 4(atol+rtol Tm) of a "
+                                 "sign change of tmFromvpsq" % Tm, "deton-root"))
+        elif info is not None:
+            z = refine_zero(info)
+            if z is None:
+                ctx.count("accuracy", bucket="no-refined-zero")
+                if not info["hybr_ok"]:
+                    bads.append(("the final 2x2 solve failed (hybr status %d, sum fun^2 = "
+                                 "%.3g) and no zero of the residual is found near the "
+                                 "returned point; fluxes differ by %.3g / %.3g" % (
+                                     info["status"], info["ssq"], re_, rm_),
+                                 "not-converged"))
+            else:
+                ctx.count("accuracy", bucket="refined")
+                Tz = [float(x) for x in h._inverseMappingT(z)]
+                dist = max(abs(Tp - Tz[0]), abs(Tm - Tz[1]))
+                tolz = K_ACC * h.atol * h.Tnucl + 1e-9 * max(Tz)
+                rec["dist_over_tol"] = dist / tolz
+                if dist > tolz:
+                    bads.append((
+                        "returned (Tp, Tm) = (%.12g, %.12g) is %.3g away from the zero "
+                        "(%.12g, %.12g) of the residual (tolerance %.3g; hybr status %d, sum "
+                        "fun^2 = %.3g); fluxes differ by %.3g / %.3g" % (
+                            Tp, Tm, dist, Tz[0], Tz[1], tolz, info["status"], info["ssq"],
+                            re_, rm_), "inaccurate"))
+    # ---- fluxes of a template fallback (an approximation unless the EOS is template) ------
+    slow_mech = False
+    if spy.fallback:
+        if not re_ <= tolc:
+            bads.append(("energy flux differs across the wall: %.12g vs %.12g (rel %.3g > "
+                         "tol %.3g)" % (e1, e2, re_, tolc), "energy-flux"))
+        elif not rm_ <= tolc:
+            bads.append(("momentum flux differs across the wall: %.12g vs %.12g (rel %.3g > "
+                         "tol %.3g)" % (m1, m2, rm_, tolc), "momentum-flux"))
+    # ---- boundary constants ----------------------------------------------------------------
+    c1, c2, Tpb, Tmb, vmid = (float(x) for x in hb)
+    label.update(boundaries=[c1, c2])
+    ctx.count("boundaries")
+    if not same(c1, -e1, 16):
+        bads.append(("c1 = %.15g is not minus the energy flux in front %.15g" % (c1, e1),
+                     "c1"))
+    if not same(c2, m1, 16):
+        bads.append(("c2 = %.15g is not the momentum flux in front %.15g" % (c2, m1),
+                     "c2"))
+    rear_tol = (bound[0] * (1 + 1e-6) + bound[1]) if bound is not None else None
+    if rear_tol is None:
+        rear_tol = 2 * tolc * max(sc1, sc2)
+    if abs(c1 + e2) > rear_tol + 16 * EPS * sc1 and not any(
+            k in ("flux-vs-residual", "energy-flux", "c1", "residual-not-small")
+            for _, k in bads):
+        bads.append(("c1 = %.12g is not minus the energy flux behind the wall %.12g" % (
+            c1, e2), "c1-rear"))
+    if abs(c2 - m2) > rear_tol + 16 * EPS * sc2 and not any(
+            k in ("flux-vs-residual", "momentum-flux", "c2", "residual-not-small")
+            for _, k in bads):
+        bads.append(("c2 = %.12g is not the momentum flux behind the wall %.12g" % (c2, m2),
+                     "c2-rear"))
+    if not (same(Tpb, Tp) and same(Tmb, Tm) and abs(vmid + 0.5 * (vp + vm)) <= 4 * EPS):
+        bads.append(("findHydroBoundaries does not pass on the matching: %r vs %r" % (
+            (Tpb, Tmb, vmid), (Tp, Tm, -0.5 * (vp + vm))), "boundary-pass"))
+    # ---- branch specific conclusions of the theorems -------------------------------------
+    if not spy.fallback:
+        if branch == "detonation":
+            if not (same(vp, vw) and same(Tp, h.Tnucl)):
+                bads.append(("detonation does not return vp=vw, Tp=Tn: vp=%.15g Tp=%.15g" % (
+                    vp, Tp), "deton-form"))
         else:
-            fun, r = spy.last("root", "matching")
-            if fun is not None:
-                res = fun(r.x)
-                rec["deflag_res"] = float(np.sum(np.asarray(res) ** 2))
-                if not success:
-                    ctx.count("hypothesis_not_met", bucket="hybr-not-converged")
-    # the flag and the fallback (last sentence of the property)
-    if not bad and branch != "detonation":
-        if spy.fallback:
-            ctx.count("fallback_used", bucket=branch)
-            exists, where = exact_matching_exists(h, vw)
-            rec["fallback_exact_exists"] = exists
-            if exists:
-                # an approximation was returned instead of it?  (on a template equation of
-                # state the fallback is itself exact)
-                ex = refine_exact(h, vw, where)
-                if ex is not None:
-                    dev = max(abs(a - b) / max(abs(b), 1e-300) for a, b in zip(
-                        (vp, Tp, Tm), (ex[0], ex[2], ex[3])))
-                    # the shooting residual is known to ~rtol, so v+ is known to ~rtol
-                    # ABSOLUTE (rtol/vp relative) and further limited by the heating
-                    d = h.rtol + h.atol / min(ex[0], ex[2], ex[3]) + h.rtol / ex[0] + \
-                        h.rtol / max(abs(ex[2] / h.Tnucl - 1), 1e-12)
-                    tolx = K_FLUX * d / ((1 - ex[0] ** 2) * (1 - ex[1] ** 2))
-                    rec["fallback_dev"] = dev
-                    if dev > tolx:
-                        bad = ("template fallback returned for vw=%.6g although an exact "
-                               "matching exists: exact (vp,Tp,Tm)=(%.9g,%.9g,%.9g), returned "
-                               "(%.9g,%.9g,%.9g), rel. deviation %.3g > %.3g" % (
-                                   vw, ex[0], ex[2], ex[3], vp, Tp, Tm, dev, tolx),
-                               "fallback")
-        elif not success:
-            bad = ("Hydrodynamics.success is False after findMatching(vw=%.6g) inside "
-                   "[vMin, 0.99]" % vw, "not-converged")
-    if bad:
-        _, lastsol = spy.last("root", "matching")
-        hybr_ok = lastsol is None or bool(lastsol.success)
-        label["hybr_status"] = None if lastsol is None else int(lastsol.status)
-        bad = (bad[0], failure_key(h, vw, bad[1], spy.fallback, bool(success), hybr_ok))
-    if bad:
-        label.update(what_fails=bad[0], fluxes=[e1, e2, m1, m2], boundaries=[c1, c2],
-                     fallback=spy.fallback, success=bool(success))
-        ctx.fail_input("%s [%s vw=%.6g %s]" % (bad[0], case["kind"], vw, branch), label,
-                       key=bad[1])
-        rec["bad"] = bad[1]
-    return rec
+            vmsq = min(vw * vw, float(th.csqLowT(Tm)))
+            if abs(vm * vm - vmsq) > 1e-12:
+                bads.append(("vm^2 = %.15g but min(vw^2, cs^2(Tm)) = %.15g" % (
+                    vm * vm, vmsq), "vm-rule"))
+            if info is not None and not same(float(info["vp"]), vp):
+                bads.append(("returned vp=%.15g is not the shooting value %.15g of the final "
+                             "2x2 solve" % (vp, float(info["vp"])), "vp-not-shooting-root"))
+            if info is not None and bool(h.success) != info["accepted"]:
+                bads.append(("Hydrodynamics.success = %r but the final solve has success=%r, "
+                             "sum fun^2 = %.3g" % (h.success, info["hybr_ok"], info["ssq"]),
+                             "success-flag"))
+    # ---- the template fallback (last sentence of the property) ------------------------------
+    if spy.fallback and branch != "detonation":
+        ctx.count("fallback_used", bucket=branch)
+        exists, where = exact_matching_exists(h, vw)
+        rec["fallback_exact_exists"] = exists
+        if exists:
+            slow_mech = where[1] <= h.vBracketLow * (1 + 1e-9) or where[0] < h.vBracketLow
+            ex = refine_exact(h, vw, where)
+            if ex is not None:
+                dev = max(abs(a - b) / max(abs(b), 1e-300) for a, b in zip(
+                    (vp, Tp, Tm), (ex[0], ex[2], ex[3])))
+                # the shooting residual is known to ~rtol, so v+ is known to ~rtol ABSOLUTE
+                # (rtol/vp relative) and further limited by the heating
+                d = h.rtol + h.atol / min(ex[0], ex[2], ex[3]) + h.rtol / ex[0] + \
+                    h.rtol / max(abs(ex[2] / h.Tnucl - 1), 1e-12)
+                tolx = K_FLUX * d / ((1 - ex[0] ** 2) * (1 - ex[1] ** 2))
+                rec["fallback_dev"] = dev
+                if dev > tolx and not any(k in ("energy-flux", "momentum-flux")
+                                          for _, k in bads):
+                    bads.append((
+                        "template fallback returned for vw=%.6g although an exact matching "
+                        "exists: exact (vp,Tp,Tm)=(%.9g,%.9g,%.9g), returned (%.9g,%.9g,"
+                        "%.9g), rel. deviation %.3g > %.3g" % (
+                            vw, ex[0], ex[2], ex[3], vp, Tp, Tm, dev, tolx), "fallback"))
+    return report(state, slow_mech, spy.fallback)
+
+
+def check_model_constants(ctx, case, th, h):
+    """vJ and vMin are taken from the code to label branches and to choose the range: judge
+    them where an independent value exists"""
+    if case["kind"] in ("template", "bag"):
+        # constant sound speeds: the template closed form (C15: Chapman-Jouguet point) is exact
+        ctx.count("vJ_checked")
+        if abs(h.vJ - h.template.vJ) > 1e-5 * h.template.vJ:
+            ctx.fail_input("Jouguet velocity %.12g, closed form %.12g [%s]" % (
+                h.vJ, h.template.vJ, case["kind"]), dict(case=case, vw=h.vJ, kind="vJ",
+                                                         rtol=h.rtol, atol=h.atol), key="vJ")
+    if h.vMin > 2 * h.vBracketLow:
+        # shock-limited minimal velocity: 10% below it no matching may exist
+        ctx.count("vMin_checked")
+        vw = 0.9 * h.vMin
+        exists, where = exact_matching_exists(h, vw)
+        if exists:
+            ex = refine_exact(h, vw, where)
+            if ex is not None and ex[0] > 1e-4 and float(th.csqLowT(ex[3])) > 0:
+                ctx.fail_input(
+                    "vMin = %.9g but an exact matching exists at vw = %.9g: %r [%s]" % (
+                        h.vMin, vw, ex, case["kind"]),
+                    dict(case=case, vw=vw, kind="vMin", rtol=h.rtol, atol=h.atol),
+                    key="vMin-too-large")
+
+
+def call_result(h, method, vw):
+    try:
+        r = getattr(h, method)(vw)
+        return tuple(None if x is None else float(x) for x in r)
+    except Exception as ex:
+        return ("raised", type(ex).__name__)
+
+
+def check_histories(ctx, case, th, pristine, rng, full=False):
+    """call histories on ONE object against a fresh object per call: findMatching and
+    findHydroBoundaries are functions of vw only (the class keeps no state they may read)"""
+    import copy
+    h0 = pristine
+    vJ, vmin = h0.vJ, max(h0.vMin, 1e-3)
+    cb = math.sqrt(max(float(th.csqLowT(h0.Tnucl)), 1e-6))
+    anchors = [("vJ", vJ)] + ([("cb", cb)] if vmin < cb < vJ else []) + [("vMin", vmin)]
+    eps = [1e-9, 3e-6, 1e-4]
+    for name, v0 in anchors:
+        for e in (eps if full else [rng.choice(eps)]):
+            for order in ((1 - e, 1 + e), (1 + e, 1 - e)):
+                shared = copy.copy(h0)
+                shared.doesPhaseTraceLimitvmax = [False, False]
+                hist = []
+                meths = rng.choice([("findHydroBoundaries",) * 3,
+                                    ("findMatching",) * 3,
+                                    ("findMatching", "findHydroBoundaries", "findMatching"),
+                                    ("findHydroBoundaries", "findMatching",
+                                     "findHydroBoundaries")])
+                for k, fac in enumerate(order + (order[0],)):
+                    vw = v0 * fac
+                    if not 1e-3 <= vw <= 0.99:
+                        continue
+                    meth = meths[k] if vw >= h0.vMin else "findMatching"
+                    fresh = copy.copy(h0)
+                    fresh.doesPhaseTraceLimitvmax = [False, False]
+                    a, b = call_result(shared, meth, vw), call_result(fresh, meth, vw)
+                    hist.append((meth, vw))
+                    ctx.count("history_call", bucket=name)
+                    if a != b and not (len(a) == len(b) and all(
+                            x is not None and y is not None and not isinstance(x, str)
+                            and not isinstance(y, str) and same(x, y, 4)
+                            for x, y in zip(a, b))):
+                        ctx.fail_input(
+                            "%s(%.12g) after the calls %r on the same object returns %r, a "
+                            "fresh object returns %r [%s]" % (meth, vw, hist[:-1], a, b,
+                                                            case["kind"]),
+                            dict(case=case, vw=vw, history=hist, shared=a, fresh=b,
+                                 rtol=h0.rtol, atol=h0.atol, kind="history"),
+                            key="history-dependence")
+                        break
 
 
 # ------------------------------------------------------------------------------------
@@ -737,12 +1079,12 @@ def run(ctx):
         try:
             th = build_model(case)
             h = make_hydro(th)
-            check_point(ctx, case, th, h, vw, None)
+            check_point(ctx, case, th, h, h.vJ if vw == "vJ" else vw, None)
         except Exception:
             ctx.log("recorded input raised", json.dumps(case), traceback.format_exc())
             ctx.broken.append("harness: recorded input raised")
     nmodels = ctx.n(14, 160)
-    nvw = ctx.n(10, 16)
+    nvw = ctx.n(12, 18)
     # ---- certified correspondence: files written and coqc started now, collected below --
     procs = []
     if proved:
@@ -771,9 +1113,14 @@ def run(ctx):
         # both the tests' setting rtol = atol = 1e-6 and the library defaults 1e-6 / 1e-10
         # (rtol != atol: the two tolerances are distinguishable); kept in the case record
         case["rtol"], case["atol"] = rng.choice(TOL_PAIRS)
+        case["tmax"], case["tmin"] = rng.choice([(10.0, 0.01), (10.0, 0.01), (6.0, 0.03)])
+        if case["kind"] == "template":
+            case["wn"] = rng.choice([1, 1, 0.37, 12.5])
         try:
             th = build_model(case)
-            h = make_hydro(th, case["rtol"], case["atol"])
+            h = make_hydro(th, case["rtol"], case["atol"], case["tmax"], case["tmin"])
+            import copy
+            pristine = copy.copy(h)
         except Exception as ex:
             ctx.count("model_rejected", bucket=type(ex).__name__)
             continue
@@ -800,9 +1147,18 @@ def run(ctx):
                 ctx.log("harness exception at", json.dumps(case), vw,
                         traceback.format_exc())
                 ctx.broken.append("harness: check_point raised")
+        try:
+            check_model_constants(ctx, case, th, pristine)
+            if m % ctx.n(2, 1) == 0:
+                check_histories(ctx, case, th, pristine, rng, full=not ctx.quick)
+        except Exception:
+            ctx.log("harness exception in histories", json.dumps(case),
+                    traceback.format_exc())
+            ctx.broken.append("harness: check_histories raised")
         if m == 0:
             ctx.sample(dict(case=case, vJ=h.vJ, vMin=h.vMin,
-                            first=stats[-1] if stats else None))
+                            first={k: v for k, v in stats[-1].items() if k != "bad"}
+                            if stats else None))
     ctx.log("direct validation: %d matchings in %.1fs" % (len(stats), time.time() - t0))
     # one numerically traced potential (real FreeEnergy tables)
     for _ in range(ctx.n(1, 4)):
@@ -816,18 +1172,38 @@ def run(ctx):
                                3)
             th = build_model(case)
             h = make_hydro(th)
+            import copy
+            check_histories(ctx, case, th, copy.copy(h), rng)
             ctx.count("model", case, bucket="traced")
             for vw in wall_velocities(rng, h, ctx.n(6, 12)):
                 check_point(ctx, case, th, h, vw, stats)
         except Exception:
             ctx.log("traced model raised", json.dumps(case), traceback.format_exc())
             ctx.broken.append("harness: traced model raised")
-    if stats:
-        worst = max([r for r in stats if "bad" not in r] or stats,
-                    key=lambda r: r["mis"] / r["tol"])
-        ctx.log("worst flux mismatch / tolerance: %.3g (mis %.3g, vw %.4f, %s)" % (
-            worst["mis"] / worst["tol"], worst["mis"], worst["vw"], worst["branch"]))
-        ctx.cov["worst_mismatch_over_tolerance"] = worst["mis"] / worst["tol"]
+    good = [r for r in stats if "bad" not in r]
+    for fld, name in (("mis_over_bound", "flux mismatch / bound derived from the residual"),
+                      ("dist_over_tol", "distance to the exact zero / tolerance")):
+        vals = [r for r in good if fld in r]
+        if vals:
+            w = max(vals, key=lambda r: r[fld])
+            ctx.log("worst %s: %.3g (vw %.4f, %s)" % (name, w[fld], w["vw"], w["branch"]))
+            ctx.cov["worst_" + fld] = w[fld]
+    # ---- coverage floors (fail closed) ---------------------------------------------------
+    cc = ctx.cov["correspondence"]
+    dist = ctx.cov["distribution"]
+    npts = cc.get("point", 0)
+    floors = [("matching", ctx.n(100, 1500)), ("derived_bound", ctx.n(80, 1200)),
+              ("boundaries", ctx.n(100, 1500)), ("history_call", ctx.n(40, 1500))]
+    for k, n in floors:
+        if cc.get(k, 0) < n:
+            ctx.broken.append("coverage: only %d %s (floor %d)" % (cc.get(k, 0), k, n))
+    for br in ("deflagration", "hybrid", "detonation"):
+        got = sum(v for b, v in dist.get("matching", {}).items() if b.endswith("/" + br))
+        if got < ctx.n(15, 200):
+            ctx.broken.append("coverage: only %d %s matchings" % (got, br))
+    if cc.get("raised", 0) + cc.get("no_solution", 0) > 0.2 * max(npts, 1):
+        ctx.broken.append("coverage: %d of %d points returned no matching" % (
+            cc.get("raised", 0) + cc.get("no_solution", 0), npts))
     # ---- collect the certified evaluations ---------------------------------------------
     for m, case, rows, p, pr in procs:
         out, err = pr.communicate()
@@ -860,7 +1236,13 @@ def replay(rep):
     case, vw = rep["case"], rep["vw"]
     th = build_model(case)
     h = make_hydro(th, rep.get("rtol", case.get("rtol", RTOL)),
-                   rep.get("atol", case.get("atol", ATOL)))
+                   rep.get("atol", case.get("atol", ATOL)), case.get("tmax", TMAX),
+                   case.get("tmin", TMIN))
+    if rep.get("kind") == "history":
+        for meth, v in rep["history"]:
+            print(meth, v, call_result(h, meth, v))
+        print("fresh object:", call_result(make_hydro(th, h.rtol, h.atol), *rep["history"][-1]))
+        return 0
     if rep.get("solver") == "template":
         r = h.template.findMatching(vw)
         print("template.findMatching(%r) = %r" % (vw, r))
